@@ -136,9 +136,11 @@ func (st *PacketServer) acceptConnection() {
 		// Even though the connection might be secured by an AES-encrypted symmetric ciper, we
 		// state here "secure=false" to enable the client to provide StartTLS and do a potential
 		// host check and/or identify itself with a client certificate
-		if err = AcceptConnection(conn, &st.ServerConfig, false, st.upstreams); err != nil {
-			log.WithError(err).Errorf("Error accepting connection: %v", err)
-		}
+		go func(conn net.Conn) {
+			if err := AcceptConnection(conn, &st.ServerConfig, false, st.upstreams); err != nil {
+				log.WithError(err).Errorf("Error accepting connection: %v", err)
+			}
+		}(conn)
 	}
 }
 
